@@ -20,6 +20,7 @@ import (
 	"fmt"
 	"go/ast"
 	"go/token"
+	"os"
 	"reflect"
 	"strconv"
 	"strings"
@@ -251,7 +252,23 @@ func singleReturn(e *env, s ast.Stmt) (ast.Expr, error) {
 
 func norm(s string) string { return strings.Join(strings.Fields(s), " ") }
 
-type out struct{ b strings.Builder }
+type out struct {
+	b    strings.Builder
+	pins []string
+}
+
+// pin records a structural expectation about the source text.  A failed pin does NOT stop the translation (the
+// driver and the harness must keep running so that the monitors can look for a concrete failing input): it is
+// emitted as `def pin_<name> : Bool := false` and the theorem `fact_pin_<name>` of Props/C20.lean stops checking.
+func (o *out) pin(name, what string, ok bool, have, want string) {
+	doc := what
+	if !ok {
+		doc += "\n    SOURCE CHANGED.\n    have: " + strings.ReplaceAll(have, "-/", "- /") + "\n    want: " + strings.ReplaceAll(want, "-/", "- /")
+		fmt.Fprintf(os.Stderr, "factgen nets: pin %s failed (%s)\n  have: %s\n  want: %s\n", name, what, have, want)
+	}
+	o.def(doc, "pin_"+name+" : Bool", fg.LeanBool(ok))
+	o.pins = append(o.pins, fmt.Sprintf("(%s, pin_%s)", fg.LeanStr(name), name))
+}
 
 func (o *out) def(doc, sig, body string) {
 	fmt.Fprintf(&o.b, "/-- %s -/\ndef %s :=\n  %s\n\n", doc, sig, body)
@@ -281,14 +298,17 @@ func genIPGo(repo string, o *out) error {
 		return err
 	}
 	e := &env{p: p, fn: "IPRange.Size", ips: map[string]string{"ipr.First": "first", "ipr.Last": "last"}}
-	if resultType(p, fd) != "uint32" || len(fd.Body.List) != 2 {
-		return e.errf(fd.Type, "expected `func (ipr IPRange) Size() uint32` with a nil guard and one return")
+	if resultType(p, fd) != "uint32" || len(fd.Body.List) == 0 {
+		return e.errf(fd.Type, "expected `func (ipr IPRange) Size() uint32` ending with one return")
 	}
-	if g, ok := fd.Body.List[0].(*ast.IfStmt); !ok || g.Init != nil || g.Else != nil ||
-		norm(p.Src(g.Cond)) != "len(ipr.First) == 0 || len(ipr.Last) == 0" || norm(p.Src(g.Body)) != "{ return 0 }" {
-		return e.errf(fd.Body.List[0], "expected the guard `if len(ipr.First) == 0 || len(ipr.Last) == 0 { return 0 }`")
+	var guards []string
+	for _, st := range fd.Body.List[:len(fd.Body.List)-1] {
+		guards = append(guards, norm(p.Src(st)))
 	}
-	rx, err := singleReturn(e, fd.Body.List[1])
+	const wantGuard = "if len(ipr.First) == 0 || len(ipr.Last) == 0 { return 0 }"
+	o.pin("rangeSizeGuard", "`IPRange.Size` returns 0 for a nil First / Last and otherwise its last statement",
+		strings.Join(guards, " ; ") == wantGuard, strings.Join(guards, " ; "), wantGuard)
+	rx, err := singleReturn(e, fd.Body.List[len(fd.Body.List)-1])
 	if err != nil {
 		return err
 	}
@@ -366,34 +386,37 @@ func genIPGo(repo string, o *out) error {
 	}
 	e = &env{p: p, fn: "ParseIPRange", ips: map[string]string{"first": "first", "last": "last"}}
 	var orderIf *ast.IfStmt
+	nOrder := 0
 	ast.Inspect(fd.Body, func(n ast.Node) bool {
 		if is, ok := n.(*ast.IfStmt); ok && strings.Contains(p.Src(is.Cond), "IPToInt") {
-			if orderIf != nil {
-				orderIf = nil
-				return false
-			}
+			nOrder++
 			orderIf = is
 		}
 		return true
 	})
-	if orderIf == nil || norm(p.Src(orderIf.Body)) != "{ return nil }" || orderIf.Else != nil || orderIf.Init != nil {
-		return e.errf(fd.Body, "expected exactly one `if <comparison of IPToInt(first), IPToInt(last)> { return nil }`")
+	shape := norm(p.Src(fd.Body))
+	switch {
+	case nOrder == 0:
+		// no comparison of the two ends at all: ParseIPRange never rejects on the order
+		o.def("`ParseIPRange`: the source has NO order check of `first` and `last` (nothing is rejected on the order)",
+			"parseRangeReject (first last : BitVec 32) : Bool", "false")
+	case nOrder == 1 && norm(p.Src(orderIf.Body)) == "{ return nil }" && orderIf.Else == nil && orderIf.Init == nil:
+		s, err = e.typed(orderIf.Cond, tBool)
+		if err != nil {
+			return err
+		}
+		o.def("`ParseIPRange`: `if "+p.Src(orderIf.Cond)+" { return nil }`",
+			"parseRangeReject (first last : BitVec 32) : Bool", s)
+		shape = strings.Replace(shape, norm(p.Src(orderIf)), "<ORDER-CHECK>", 1)
+	default:
+		return e.errf(fd.Body, "expected at most one `if <comparison of IPToInt(first), IPToInt(last)> { return nil }`")
 	}
-	s, err = e.typed(orderIf.Cond, tBool)
-	if err != nil {
-		return err
-	}
-	o.def("`ParseIPRange`: `if "+p.Src(orderIf.Cond)+" { return nil }`",
-		"parseRangeReject (first last : BitVec 32) : Bool", s)
-	shape := strings.Replace(norm(p.Src(fd.Body)), norm(p.Src(orderIf.Cond)), "<ORDER>", 1)
 	const wantShape = `{ if strings.Contains(ipr, IPRangeSeparator) { strs := strings.SplitN(ipr, IPRangeSeparator, 2) ` +
 		`first := net.ParseIP(strs[0]) if first == nil { return nil } last := net.ParseIP(strs[1]) if last == nil { return nil } ` +
-		`if <ORDER> { return nil } return &IPRange{first, last} } else { ip := net.ParseIP(ipr) if len(ip) == 0 { return nil } ` +
+		`<ORDER-CHECK> return &IPRange{first, last} } else { ip := net.ParseIP(ipr) if len(ip) == 0 { return nil } ` +
 		`return &IPRange{ip, ip} } }`
-	if shape != wantShape {
-		return fmt.Errorf("%s: ParseIPRange no longer has the shape the model mirrors (split on the first separator, "+
-			"net.ParseIP both halves, order check, else a single address):\n  have: %s\n  want: %s", p.Path, shape, wantShape)
-	}
+	o.pin("parseIPRangeShape", "`ParseIPRange`: split on the first separator, net.ParseIP both halves, order check, else a single address",
+		shape == wantShape, shape, wantShape)
 
 	// --- IPRange.String pinned textually (single address printed without separator)
 	fd, err = p.Fn("IPRange", "String")
@@ -402,10 +425,8 @@ func genIPGo(repo string, o *out) error {
 	}
 	const wantString = `{ if ipr.First.Equal(ipr.Last) { return ipr.First.String() } ` +
 		`return fmt.Sprintf("%s%s%s", ipr.First.String(), IPRangeSeparator, ipr.Last.String()) }`
-	if norm(p.Src(fd.Body)) != wantString {
-		return fmt.Errorf("%s: IPRange.String no longer has the shape the model mirrors:\n  have: %s\n  want: %s", p.Path,
-			norm(p.Src(fd.Body)), wantString)
-	}
+	o.pin("rangeStringShape", "`IPRange.String`: a single address alone, otherwise first + separator + last",
+		norm(p.Src(fd.Body)) == wantString, norm(p.Src(fd.Body)), wantString)
 
 	// --- IPToInt / IntToIP: big-endian low 32 bits; pinned textually, slice bounds extracted
 	fd, err = p.Fn("", "IPToInt")
@@ -414,21 +435,15 @@ func genIPGo(repo string, o *out) error {
 	}
 	const wantIPToInt = `{ if len(ip) == net.IPv6len { return binary.BigEndian.Uint32(ip[12:16]) } else if len(ip) == net.IPv4len ` +
 		`{ return binary.BigEndian.Uint32(ip) } return 0 }`
-	if norm(p.Src(fd.Body)) != wantIPToInt {
-		return fmt.Errorf("%s: IPToInt no longer is `big-endian uint32 of the last four bytes`:\n  have: %s\n  want: %s", p.Path,
-			norm(p.Src(fd.Body)), wantIPToInt)
-	}
+	o.pin("ipToIntShape", "`IPToInt` is the big-endian uint32 of the last four bytes",
+		norm(p.Src(fd.Body)) == wantIPToInt, norm(p.Src(fd.Body)), wantIPToInt)
 	fd, err = p.Fn("", "IntToIP")
 	if err != nil {
 		return err
 	}
 	const wantIntToIP = `{ ip := make(net.IP, net.IPv4len) binary.BigEndian.PutUint32(ip, i) return ip }`
-	if norm(p.Src(fd.Body)) != wantIntToIP {
-		return fmt.Errorf("%s: IntToIP no longer is `4 bytes big-endian`:\n  have: %s\n  want: %s", p.Path,
-			norm(p.Src(fd.Body)), wantIntToIP)
-	}
-	o.def("`IPToInt` / `IntToIP` are the big-endian reading / writing of the 32-bit value (bodies pinned textually)",
-		"ipIntIsBigEndian32 : Bool", "true")
+	o.pin("intToIPShape", "`IntToIP` writes the four bytes big-endian",
+		norm(p.Src(fd.Body)) == wantIntToIP, norm(p.Src(fd.Body)), wantIntToIP)
 	return nil
 }
 
@@ -540,27 +555,37 @@ func genFloatingIP(repo string, o *out) error {
 		"i != 0",
 		"<ADJ>",
 	}
-	if !reflect.DeepEqual(conds, wantConds) {
-		return fmt.Errorf("%s: fipCheck's checks changed (the model mirrors: ipv4-only, both ends inside the subnet, "+
-			"adjacency with the previous range for i != 0):\n  have: %q\n  want: %q", p.Path, conds, wantConds)
+	o.pin("fipCheckGuards", "`fipCheck` checks: ipv4 only, both ends of every range inside the gateway's subnet, adjacency for i != 0",
+		reflect.DeepEqual(conds, wantConds), strings.Join(conds, " ; "), strings.Join(wantConds, " ; "))
+	skel := norm(p.Src(fd.Body))
+	if adj != nil {
+		skel = strings.Replace(skel, norm(p.Src(adj.Cond)), "<ADJ>", 1)
 	}
-	skel := strings.Replace(norm(p.Src(fd.Body)), norm(p.Src(adj.Cond)), "<ADJ>", 1)
-	for _, must := range []string{
+	skelOK := true
+	musts := []string{
 		"net := net.IPNet{IP: fip.Gateway, Mask: fip.Mask}",
 		"for i := range fip.IPRanges {",
 		"if i != 0 { if <ADJ> { return fmt.Errorf(",
 		"} return nil }",
-	} {
+	}
+	for _, must := range musts {
 		if !strings.Contains(skel, must) {
-			return fmt.Errorf("%s: fipCheck no longer contains `%s`:\n  have: %s", p.Path, must, skel)
+			skelOK = false
 		}
 	}
-	s, err = e.typed(adj.Cond, tBool)
-	if err != nil {
-		return err
+	o.pin("fipCheckSkeleton", "`fipCheck`: the subnet is {Gateway, Mask}; one loop over the ranges; the adjacency test returns an error",
+		skelOK, skel, "contains each of: "+strings.Join(musts, " | "))
+	if adj == nil {
+		o.def("`fipCheck`: the source has NO adjacency comparison (no range is rejected for order / mergeability)",
+			"fipAdjReject (first prevLast : BitVec 32) : Bool", "false")
+	} else {
+		s, err = e.typed(adj.Cond, tBool)
+		if err != nil {
+			return err
+		}
+		o.def("`fipCheck`: a range is rejected (mergeable with / not after the previous one) iff `"+norm(p.Src(adj.Cond))+"`",
+			"fipAdjReject (first prevLast : BitVec 32) : Bool", s)
 	}
-	o.def("`fipCheck`: a range is rejected (mergeable with / not after the previous one) iff `"+norm(p.Src(adj.Cond))+"`",
-		"fipAdjReject (first prevLast : BitVec 32) : Bool", s)
 
 	// --- FloatingIPPoolConf: json field table
 	var fields []string
@@ -623,9 +648,8 @@ func genFloatingIP(repo string, o *out) error {
 		return true
 	})
 	last := fd.Body.List[len(fd.Body.List)-1]
-	if norm(p.Src(last)) != "return fipCheck(fip)" {
-		return fmt.Errorf("%s: FloatingIPPool.UnmarshalJSON no longer ends with `return fipCheck(fip)`", p.Path)
-	}
+	o.pin("unmarshalEndsWithFipCheck", "`FloatingIPPool.UnmarshalJSON` ends with `return fipCheck(fip)`",
+		norm(p.Src(last)) == "return fipCheck(fip)", norm(p.Src(last)), "return fipCheck(fip)")
 	o.def("`FloatingIPPool.UnmarshalJSON`: every `if` condition in source order (the function ends with `return fipCheck(fip)`)",
 		"unmarshalGuards : List String", "[\n    "+strings.Join(conds, ",\n    ")+"]")
 
@@ -817,6 +841,7 @@ func main() {
 				return nil, err
 			}
 		}
+		o.def("all structural pins (name, holds)", "pins : List (String × Bool)", "[\n    "+strings.Join(o.pins, ",\n    ")+"]")
 		o.b.WriteString("end Galaxy.Generated.Nets\n")
 		return map[string]string{"Nets.lean": o.b.String()}, nil
 	})
